@@ -1,9 +1,12 @@
-"""Extractor for C10: value tables, literal request paths, defaults and control-flow shapes of the reward layer
-(game/agent/rewards.py, game/game.py, game/science.py), read with `ast`. Strict: any unrecognised shape raises."""
+"""Extractor for C10 (Gen/Reward.lean): every reward component's `calculate` translated statement by statement into the
+language of Model/RewardCalcLang.lean (harness/extract/reward_calc.py), literal defaults (weights, sticky flags, memories),
+the component registry, and text-shape flags of the functions the models transcribe by hand
+(game/agent/rewards.py, game/game.py, game/science.py, game/agent/utils.py, game/agent/interface.py), read with `ast`.
+Strict: an untranslatable construct raises."""
 import ast
 from typing import Dict, List, Tuple
 
-from harness.extract.reward_shapes import SHAPES, WEBPAGE_AS_WRITTEN, WEBPAGE_FIXED
+from harness.extract.reward_shapes import SHAPES
 from harness.extract.util import class_def, find_function, find_method, parse
 
 GEN_NAME = "Reward"
@@ -50,66 +53,20 @@ def lean_rat(x) -> str:
     raise ValueError(f"value {ast.unparse(x)} is not an integer-valued literal")
 
 
-def request_path(fn: ast.FunctionDef) -> List[str]:
-    """`request_attempted = last_action_response.request == [ ... ]` → Lean list items (`node` for the hostname)."""
-    for n in ast.walk(fn):
-        if isinstance(n, ast.Assign) and ast.unparse(n.targets[0]) == "request_attempted":
-            v = n.value
-            if (isinstance(v, ast.Compare) and len(v.ops) == 1 and isinstance(v.ops[0], ast.Eq)
-                    and ast.unparse(v.left) == "last_action_response.request" and isinstance(v.comparators[0], ast.List)):
-                items = []
-                for e in v.comparators[0].elts:
-                    if isinstance(e, ast.Constant) and isinstance(e.value, str):
-                        items.append(lean_str(e.value))
-                    elif ast.unparse(e) == "self.config.node_hostname":
-                        items.append("node")
-                    else:
-                        raise ValueError(f"unrecognised request element {ast.unparse(e)}")
-                return items
-    raise ValueError(f"no `request_attempted = last_action_response.request == [...]` in {fn.name}")
+def component_classes(rw: ast.Module) -> List[Tuple[str, str, ast.ClassDef]]:
+    """(class name, discriminator, class) of every registered reward component, in definition order."""
+    out = []
+    for n in rw.body:
+        if isinstance(n, ast.ClassDef):
+            for kw in n.keywords:
+                if kw.arg == "discriminator" and isinstance(kw.value, ast.Constant):
+                    out.append((n.name, kw.value.value, n))
+    return out
 
 
-def ifexp_table(e: ast.AST, var: str) -> Tuple[List[Tuple[int, str]], str]:
-    """`a if var == k1 else b if var == k2 else c` → ([(k1, a), (k2, b)], c)"""
-    table = []
-    while isinstance(e, ast.IfExp):
-        t = e.test
-        if not (isinstance(t, ast.Compare) and len(t.ops) == 1 and isinstance(t.ops[0], ast.Eq) and ast.unparse(t.left) == var
-                and isinstance(t.comparators[0], ast.Constant) and isinstance(t.comparators[0].value, int)):
-            raise ValueError(f"unrecognised test {ast.unparse(t)}")
-        table.append((t.comparators[0].value, lean_rat(e.body)))
-        e = e.orelse
-    return table, lean_rat(e)
-
-
-def if_chain_table(stmt: ast.If, var: str, value_of) -> Tuple[List[Tuple[object, str]], str]:
-    """`if var == k1: <v1> elif var == k2: <v2> else: <v3>` with `value_of(body) -> ast value`."""
-    table = []
-    while True:
-        t = stmt.test
-        if not (isinstance(t, ast.Compare) and len(t.ops) == 1 and isinstance(t.ops[0], ast.Eq) and ast.unparse(t.left) == var
-                and isinstance(t.comparators[0], ast.Constant)):
-            raise ValueError(f"unrecognised test {ast.unparse(t)}")
-        table.append((t.comparators[0].value, lean_rat(value_of(stmt.body))))
-        if len(stmt.orelse) == 1 and isinstance(stmt.orelse[0], ast.If):
-            stmt = stmt.orelse[0]
-            continue
-        return table, lean_rat(value_of(stmt.orelse))
-
-
-def ret_value(body):
-    if len(body) == 1 and isinstance(body[0], ast.Return):
-        return body[0].value
-    raise ValueError("expected a single return")
-
-
-def assigned_reward(body):
-    if len(body) == 1 and isinstance(body[0], ast.Assign) and ast.unparse(body[0].targets[0]) == "self.reward":
-        return body[0].value
-    raise ValueError("expected a single `self.reward = ...`")
-
-
-def emit() -> str:
+def shape_report() -> List[Tuple[str, bool, str]]:
+    """(function, text-identical to the transcribed shape?, normalised source now) for the functions whose control flow the
+    models transcribe by hand (deliberately blunt: any edit of these functions is reported)."""
     rw = parse("game/agent/rewards.py")
     gm = parse("game/game.py")
     sc = parse("game/science.py")
@@ -121,105 +78,113 @@ def emit() -> str:
         "update": find_method(class_def(rw, "RewardFunction"), "update"),
         "update_agents": find_method(class_def(gm, "PrimaiteGame"), "update_agents"),
         "setup_reward_sharing": find_method(class_def(gm, "PrimaiteGame"), "setup_reward_sharing"),
-        "green": find_method(class_def(rw, "GreenAdminDatabaseUnreachablePenalty"), "calculate"),
-        "w404": find_method(class_def(rw, "WebServer404Penalty"), "calculate"),
-        "shared": find_method(class_def(rw, "SharedReward"), "calculate"),
-        "ap": find_method(class_def(rw, "ActionPenalty"), "calculate"),
-        "dfi": find_method(class_def(rw, "DatabaseFileIntegrity"), "calculate"),
+        "access_from_nested_dict": find_function(parse("game/agent/utils.py"), "access_from_nested_dict"),
+        "update_reward": find_method(class_def(parse("game/agent/interface.py"), "AbstractAgent"), "update_reward"),
+        "save_reward_to_history": find_method(class_def(parse("game/agent/interface.py"), "AbstractAgent"), "save_reward_to_history"),
     }
+    out = []
     for k, fn in fns.items():
         got = normalise(fn)
-        if got != SHAPES[k]:
-            raise ValueError(f"{k}: the source no longer has the control flow the model transcribes:\n{got}")
-    wp = find_method(class_def(rw, "WebpageUnavailablePenalty"), "calculate")
-    wp_src = normalise(wp)
-    if wp_src == WEBPAGE_FIXED:
-        nonsticky_resets = True
-    elif wp_src == WEBPAGE_AS_WRITTEN:
-        nonsticky_resets = False
-    else:
-        raise ValueError(f"WebpageUnavailablePenalty.calculate has an unrecognised shape:\n{wp_src}")
-    # literal request paths
-    wp_req = request_path(wp)
-    gr_req = request_path(fns["green"])
-    # status2rew
-    s2r = next(n for n in ast.walk(fns["w404"]) if isinstance(n, ast.FunctionDef) and n.name == "status2rew")
-    s2r_table, s2r_default = ifexp_table(ret_value([s for s in s2r.body if not isinstance(s, ast.Expr)]), "status")
-    # file health
-    dfi_if = next(n for n in fns["dfi"].body if isinstance(n, ast.If) and ast.unparse(n.test).startswith("health_status"))
-    fh_table, fh_default = if_chain_table(dfi_if, "health_status", ret_value)
-    # browser outcome
-    out_if = next(n for n in ast.walk(wp) if isinstance(n, ast.If) and ast.unparse(n.test).startswith("outcome =="))
-    o_table, o_else = if_chain_table(out_if, "outcome", assigned_reward)
-    if [k for k, _ in o_table] != ["PENDING", 200]:
-        raise ValueError(f"unrecognised outcome chain {o_table}")
+        out.append((k, got == SHAPES[k], got))
+    return out
+
+
+def emit() -> str:
+    from harness.extract.reward_calc import translate_calculate
+    rw = parse("game/agent/rewards.py")
+    shapes = shape_report()
+    shape_ok = {k: ok for k, ok, _ in shapes}
+    # every registered component class: its `calculate`, translated statement by statement
+    classes = component_classes(rw)
+    calc_defs = []
+    memory_defaults = []
+    for cname, disc, cls in classes:
+        body = translate_calculate(find_method(cls, "calculate"))
+        calc_defs.append(f"/-- `{cname}.calculate` (discriminator `{disc}`), translated from the source -/\n"
+                         f"def calc_{cname} : Py.Stmt :=\n  {body}")
+        d = next((s for s in cls.body if isinstance(s, ast.AnnAssign) and ast.unparse(s.target) == "reward"), None)
+        if d is not None:
+            if ast.unparse(d.annotation) != "float" or d.value is None:
+                raise ValueError(f"{cname}.reward is not `reward: float = <literal>`")
+            memory_defaults.append((cname, lean_rat(d.value)))
     # sticky defaults
     sticky = []
-    for cname in ("WebServer404Penalty", "WebpageUnavailablePenalty", "GreenAdminDatabaseUnreachablePenalty"):
-        schema = class_def(class_def(rw, cname), "ConfigSchema")
+    for cname, _disc, cls in classes:
+        schema = next((n for n in cls.body if isinstance(n, ast.ClassDef) and n.name == "ConfigSchema"), None)
+        if schema is None:
+            continue
         d = next((s for s in schema.body if isinstance(s, ast.AnnAssign) and ast.unparse(s.target) == "sticky"), None)
-        if d is None or not isinstance(d.value, ast.Constant) or not isinstance(d.value.value, bool):
+        if d is None:
+            continue
+        if not isinstance(d.value, ast.Constant) or not isinstance(d.value.value, bool):
             raise ValueError(f"{cname}.ConfigSchema.sticky default not a bool literal")
         sticky.append((cname, d.value.value))
+    # ActionPenalty's configured defaults
+    ap_schema = class_def(class_def(rw, "ActionPenalty"), "ConfigSchema")
+    ap_defaults = []
+    for f in ("action_penalty", "do_nothing_penalty"):
+        d = next((s for s in ap_schema.body if isinstance(s, ast.AnnAssign) and ast.unparse(s.target) == f), None)
+        if d is None or ast.unparse(d.annotation) != "float" or d.value is None:
+            raise ValueError(f"ActionPenalty.ConfigSchema.{f} is not `{f}: float = <literal>`")
+        ap_defaults.append((f, lean_rat(d.value)))
     # weight defaults: `_SingleComponentConfig.weight: float = <literal>` and `register_component(..., weight=<literal>)`
+    def opt_rat(v) -> str:
+        try:
+            return "(some " + lean_rat(v) + ")"
+        except (ValueError, AttributeError):
+            return "none"
     scc = class_def(rw, "_SingleComponentConfig")
     wd = next((s for s in scc.body if isinstance(s, ast.AnnAssign) and ast.unparse(s.target) == "weight"), None)
-    if wd is None or ast.unparse(wd.annotation) != "float" or wd.value is None:
-        raise ValueError("_SingleComponentConfig.weight is not `weight: float = <literal>`: "
-                         + (ast.unparse(wd) if wd is not None else "missing"))
-    default_weight = lean_rat(wd.value)
-    rc = fns["register_component"]
-    if [a.arg for a in rc.args.args] != ["self", "component", "weight"] or len(rc.args.defaults) != 1:
-        raise ValueError("register_component signature changed: " + ast.unparse(rc.args))
-    register_default = lean_rat(rc.args.defaults[0])
-    # component discriminators, in definition order
-    types = []
-    for n in rw.body:
-        if isinstance(n, ast.ClassDef):
-            for kw in n.keywords:
-                if kw.arg == "discriminator" and isinstance(kw.value, ast.Constant):
-                    types.append(kw.value.value)
-    # do-nothing literal of ActionPenalty
-    ap_if = next(n for n in fns["ap"].body if isinstance(n, ast.If))
-    dn_lit = ap_if.test.comparators[0].value
+    # `weight: float = <integer-valued literal>`; anything else (another annotation, `None`, no default) is emitted as `none`
+    default_weight = opt_rat(wd.value) if wd is not None and ast.unparse(wd.annotation) == "float" and wd.value is not None else "none"
+    rc = find_method(class_def(rw, "RewardFunction"), "register_component")
+    register_default = opt_rat(rc.args.defaults[0]) \
+        if [a.arg for a in rc.args.args] == ["self", "component", "weight"] and len(rc.args.defaults) == 1 else "none"
+    # `current_reward` / `total_reward` start at 0.0
+    rf = class_def(rw, "RewardFunction")
+    starts = []
+    for f in ("current_reward", "total_reward"):
+        d = next((s for s in rf.body if isinstance(s, ast.AnnAssign) and ast.unparse(s.target) == f), None)
+        if d is None or d.value is None:
+            raise ValueError(f"RewardFunction.{f} has no literal default")
+        starts.append((f, lean_rat(d.value)))
     b = lambda x: "true" if x else "false"  # noqa: E731
-    pairs = lambda t: "[" + ", ".join(f"({k}, {v})" for k, v in t) + "]"  # noqa: E731
-    return f"""namespace Primaite.Gen.Reward
-/-- `WebpageUnavailablePenalty`: the request the latest history item is compared with -/
-def webpageRequest (node : String) : List String := [{", ".join(wp_req)}]
-/-- `GreenAdminDatabaseUnreachablePenalty`: ditto -/
-def greenDbRequest (node : String) : List String := [{", ".join(gr_req)}]
-/-- `status2rew` inside `WebServer404Penalty.calculate` -/
-def status2rew : List (Nat × Rat) := {pairs(s2r_table)}
-def status2rewDefault : Rat := {s2r_default}
-/-- `DatabaseFileIntegrity.calculate`: health_status ↦ value -/
-def fileHealth : List (Nat × Rat) := {pairs(fh_table)}
-def fileHealthDefault : Rat := {fh_default}
-/-- `WebpageUnavailablePenalty.calculate`: last outcome `"PENDING"` / `200` / anything else -/
-def outcomePending : Rat := {o_table[0][1]}
-def outcome200 : Rat := {o_table[1][1]}
-def outcomeElse : Rat := {o_else}
+    nl = "\n\n"
+    return f"""import PrimaiteModel.Model.RewardCalcLang
+namespace Primaite.Gen.Reward
+open Primaite.Reward
+
+{nl.join(calc_defs)}
+
+/-- class-level default of the sticky memory `reward: float = …` -/
+def memoryDefaults : List (String × Rat) := [{", ".join(f"({lean_str(c)}, {v})" for c, v in memory_defaults)}]
 def stickyDefaults : List (String × Bool) := [{", ".join(f"({lean_str(c)}, {b(v)})" for c, v in sticky)}]
-def componentTypes : List String := [{", ".join(lean_str(t) for t in types)}]
-def actionPenaltyDoNothing : String := {lean_str(dn_lit)}
-/-- `RewardFunction.update` is `total = 0.0; for (comp, weight): total += weight * comp.calculate(...); current_reward = total` -/
-def updateIsWeightedLeftFold : Bool := true
+def componentTypes : List (String × String) := [{", ".join(f"({lean_str(c)}, {lean_str(t)})" for c, t, _ in classes)}]
+def actionPenaltyDefaults : List (String × Rat) := [{", ".join(f"({lean_str(c)}, {v})" for c, v in ap_defaults)}]
 /-- `_SingleComponentConfig.weight: float = …` (a component whose configuration omits the key) -/
-def defaultWeight : Rat := {default_weight}
+def defaultWeight : Option Rat := {default_weight}
 /-- `register_component(self, component, weight=…)` -/
-def registerDefaultWeight : Rat := {register_default}
-/-- `RewardFunction.__init__`: `self.register_component(component=rew_instance, weight=rew_config.weight)` -/
-def weightPassedUnchanged : Bool := true
-/-- body of `update_agents`' loop, in order -/
-def updateAgentsCalls : List String := ["update_reward", "save_reward_to_history", "update_observation", "total+=current"]
-def updateAgentsIteratesOrder : Bool := true
-def rewardGuardedByStepCounter : Bool := true
-def setupRaisesOnCycle : Bool := true
-def setupOrderIsTopoSort : Bool := true
-def setupCallbackReadsCurrentReward : Bool := true
-/-- without a new request a non-sticky `WebpageUnavailablePenalty` sets its value to 0 (F-18 repaired) -/
-def webpageNonStickyResets : Bool := {b(nonsticky_resets)}
-def topoSortIsPostOrder : Bool := true
-def cycleSearchShape : Bool := true
+def registerDefaultWeight : Option Rat := {register_default}
+/-- `RewardFunction.current_reward: float = …`, `total_reward: float = …` -/
+def rewardStarts : List (String × Rat) := [{", ".join(f"({lean_str(c)}, {v})" for c, v in starts)}]
+
+/-! Functions whose control flow Model/RewardGraph.lean and Model/Reward.lean transcribe by hand: `true` = the normalised
+source (docstrings, annotations, logging removed) is text-identical to the transcribed shape (harness/extract/reward_shapes.py).
+Deliberately blunt; the semantic ties are the differential rigs (R-rew, exhaustive graph family) for these functions. -/
+/-- `RewardFunction.update` is `total = 0.0; for (comp, weight): total += weight * comp.calculate(...); current_reward = total` -/
+def updateIsWeightedLeftFold : Bool := {b(shape_ok["update"])}
+/-- `RewardFunction.__init__`: `self.register_component(component=rew_instance, weight=rew_config.weight)`; `register_component` appends -/
+def weightPassedUnchanged : Bool := {b(shape_ok["rf_init"] and shape_ok["register_component"])}
+/-- `update_agents`: for each name of `_reward_calculation_order`: `update_reward`, `save_reward_to_history` (both under
+`step_counter > 0`), `update_observation`, `total_reward += current_reward` -/
+def updateAgentsShape : Bool := {b(shape_ok["update_agents"])}
+/-- `update_reward` passes `self.history[-1]`; `save_reward_to_history` writes `current_reward` into `self.history[-1].reward` -/
+def agentRewardPlumbing : Bool := {b(shape_ok["update_reward"] and shape_ok["save_reward_to_history"])}
+/-- `setup_reward_sharing`: one `set` per agent, every `SharedReward` component adds its `agent_name` and gets the callback reading
+`current_reward`; `graph_has_cycle` → `RuntimeError`; order = `topological_sort(graph)` -/
+def setupRewardSharingShape : Bool := {b(shape_ok["setup_reward_sharing"])}
+def topoSortIsPostOrder : Bool := {b(shape_ok["topological_sort"])}
+def cycleSearchShape : Bool := {b(shape_ok["graph_has_cycle"])}
+def accessFromNestedDictShape : Bool := {b(shape_ok["access_from_nested_dict"])}
 end Primaite.Gen.Reward
 """
